@@ -82,6 +82,7 @@ JudgeScenario(c) ==
 Step(st, ev) ==
     CASE ev.op = "add_system"  -> AddSystem(st, ev.k, ev.d, ev.def)
       [] ev.op = "add_project" -> AddProject(st, ev.k, ev.d, ev.def, ev.yield)
+      [] ev.op = "update_options" -> UpdateProject(st, ev.k, ev.d, ev.def)
       [] ev.op = "init_top"    -> InitTop(st, ev.lv)
       [] ev.op = "init_sub"    -> InitSub(st, ev.lv)
       [] ev.op = "set_option"  -> SetOpt(st, ev.k, ev.r)
